@@ -41,10 +41,26 @@ var codecs = map[string]*codec{
 	"json": {
 		Name: "json",
 		NewVisitor: func(w io.Writer, o EncOpts) structform.Visitor {
+			// ANOTHER visitor is configured the opposite way first: instances are
+			// independent, options set on one must never reach another one
+			d := sfjson.NewVisitor(io.Discard)
+			d.SetEscapeHTML(!o.EscapeHTML)
+			d.SetExplicitRadixPoint(!o.ExplicitRadixPoint)
+			d.SetIgnoreInvalidFloat(!o.IgnoreInvalidFloat)
 			v := sfjson.NewVisitor(w)
-			v.SetEscapeHTML(o.EscapeHTML)
-			v.SetExplicitRadixPoint(o.ExplicitRadixPoint)
-			v.SetIgnoreInvalidFloat(o.IgnoreInvalidFloat)
+			// the documented defaults (HTML escaping on, no explicit radix point,
+			// invalid floats refused) are relied upon as most users do: a setter is
+			// only called for a non-default choice — except when the radix option
+			// is on, where every option is set explicitly
+			if !o.EscapeHTML || o.ExplicitRadixPoint {
+				v.SetEscapeHTML(o.EscapeHTML)
+			}
+			if o.ExplicitRadixPoint {
+				v.SetExplicitRadixPoint(true)
+			}
+			if o.IgnoreInvalidFloat || o.ExplicitRadixPoint {
+				v.SetIgnoreInvalidFloat(o.IgnoreInvalidFloat)
+			}
 			return v
 		},
 		Parse:       sfjson.Parse,
